@@ -479,9 +479,11 @@ func (r *Run) frame(c int, key string, what string) {
 				r.Devs = append(r.Devs, d)
 			}
 			if !got.Equal(ki.St) {
+				// a document changed that the call did not address: its reads no longer return what
+				// its own last mutation left (C01); across collections also an isolation failure (C11)
 				props := []string{"C01"}
 				if ci != c {
-					props = []string{"C11"}
+					props = []string{"C01", "C11"}
 				}
 				r.Devs = append(r.Devs, Deviation{Clause: "frame", Props: props, Step: r.step,
 					Msg: fmt.Sprintf("%s on %s/%q changed another document %s/%q: was %s now %s", what, r.collName(c), key, w.Cfg.Colls[ci], k, ki.St, got),
